@@ -502,7 +502,7 @@ func c10Gen() *rapid.Generator[c10Case] {
 			c.Pre = []ops.FSEntry{{Path: f[rapid.IntRange(0, len(f)-1).Draw(t, "which")].Name, Kind: "d"}}
 		}
 		c.Sched = genSched(t)
-		c.IOKind = rapid.SampledFrom([]int{0, 0, 0, 1, 3, 4, 5}).Draw(t, "ioKind")
+		c.IOKind = rapid.SampledFrom([]int{0, 0, 0, 1, 3, 4, 5, 7}).Draw(t, "ioKind")
 		if len(c.Doc) > 8192 && c.Sched.WriterYieldUs > 20 {
 			c.Sched.WriterYieldUs = 20 // thousands of writes: keep the case cheap
 		}
